@@ -152,6 +152,18 @@ def gen_plan(rng, index, tier):
     for _ in range(rng.choice([0, 0, 1, 2])):
         # a reader peeking at the shared copy in the working directory in the middle of the run
         steps.append(_mk_step(0, rng.choice(actors)["name"], rng.choice(pts), "peek", load=rng.random() < 0.6))
+    before = [a for a in actors if a["order"] < 11.0]
+    if behind and before and not coupling and rng.random() < 0.35:
+        # the history tracker is asked about the current node before the database writes it and, by
+        # an interface behind the database, after it was written and the block has changed again
+        c = rng.randrange(n)
+        nd = rng.randrange(bs + 1)
+        idx = rng.randrange(1000)
+        val += 1
+        steps.append(_mk_step(0, rng.choice(before)["name"], ("EveryNode", c, nd, None), "htquery", idx=idx))
+        b2 = rng.choice(behind)["name"]
+        steps.append(_mk_step(0, b2, ("EveryNode", c, nd, None), "set", level="block", idx=idx, value=float(val) + 0.5))
+        steps.append(_mk_step(0, b2, ("EveryNode", c, nd, None), "htquery", idx=idx))
     if rng.random() < 0.35:
         # an interface that asks the database interface for the history so far, several times
         for _ in range(rng.randint(2, 4)):
@@ -313,6 +325,33 @@ def op_set(d, st, actor):
     o.p.vSent = st["value"]
     d.dirty = True
     d.nsets += 1
+    return None
+
+
+def op_htquery(d, st, actor):
+    """An interface asks the history tracker for a block's value at the current node: the stored value
+    once the node has been written, the live value before that."""
+    o = actor.o
+    ht = o.getInterface("history")
+    dbi = o.getInterface("database")
+    if ht is None or dbi is None or dbi._db is None or not dbi._db.isOpen():
+        return None
+    r = o.r
+    blks = objects_at_level(r, "block")
+    b = blks[st["idx"] % len(blks)]
+    now = (int(r.p.cycle), int(r.p.timeNode))
+    sn = int(b.p.serialNum)
+    mine = [w for w in d.writes if w["life"] == d.life and (w["cycle"], w["node"]) == now and "sent" in w and sn in w["sent"]]
+    live = None if b.p.vSent is None else float(b.p.vSent)
+    allowed = [w["sent"][sn] for w in mine] if mine else [live]
+    try:
+        got = ht.getBlockHistoryVal(b.getName(), "vSent", now)
+    except KeyError:
+        return None  # (the tracker refuses names it does not know, e.g. of exchanged stationary blocks)
+    got = None if got is None else float(got)
+    if got not in allowed:
+        raise OracleFailure("C06.history", f"history tracker at {now}: block serial {sn} vSent = {got}; " + (f"the node is written and holds {allowed}" if mine else f"the node is not written yet and the block holds {live}"), {"what": "tracker-value", "written": bool(mine)})
+    d.probes["tracker_queries_written" if mine else "tracker_queries_unwritten"] += 1
     return None
 
 
@@ -846,7 +885,7 @@ def diskfull_run(plan, cfg, cs, o, d, scratch, title, log, clock, simos):
 def execute(plan):
     cfg = plan["config"]
     log, scratch, clock, simos, d = enginea.new_run(plan)
-    d.ops.update({"set": op_set, "dupwrite": op_dupwrite, "_before_abort": before_abort, "peek": op_peek, "dbihist": op_dbihist, "enospc": op_enospc})
+    d.ops.update({"set": op_set, "dupwrite": op_dupwrite, "_before_abort": before_abort, "peek": op_peek, "dbihist": op_dbihist, "htquery": op_htquery, "enospc": op_enospc})
     d.hsteps = {}
     d.scratch = scratch
     d.synced_upto = {}
